@@ -53,6 +53,10 @@ package api
 // AddUint and Atoi cannot fail for an amount in range: two defensive returns
 //@   dead returns 2
 //@   ensures[C15] (err == nil) == (m >= 0 && mathint(m) <= maxAmt())
+// shape of the result as a whole (the exact digits are pinned down by the lemmas at the two success returns below)
+//@   ensures[C15] err == nil ==> len(result0) >= 1 && (forall qj_ int :: 0 <= qj_ && qj_ < len(result0) ==> (sbyteAt(result0, qj_) >= 48 && sbyteAt(result0, qj_) <= 57) || sbyteAt(result0, qj_) == 46)
+//@   ensures[C15] err == nil ==> sbyteAt(result0, 0) != 46 && sbyteAt(result0, len(result0) - 1) != 46 && sbyteAt(result0, len(result0) - 1) >= 48
+//@   ensures[C15] err == nil && len(result0) > 1 && sbyteAt(result0, 0) == 48 ==> sbyteAt(result0, 1) == 46
 //@   at "return sInt + \".\" + sFrac, nil" assert[C15] alldigits(sInt) && len(sInt) >= 1 && (len(sInt) > 1 ==> sbyteAt(sInt, 0) != 48) && alldigits(sFrac) && len(sFrac) >= 1 && len(sFrac) <= 8 && sbyteAt(sFrac, len(sFrac) - 1) != 48
 //@   at "return sInt + \".\" + sFrac, nil" assert[C15] decval(sInt) * 100000000 + decval(sFrac) * pow10(8 - len(sFrac)) == mathint(m)
 //@   at "return sInt, nil" assert[C15] alldigits(sInt) && len(sInt) >= 1 && (len(sInt) > 1 ==> sbyteAt(sInt, 0) != 48) && decval(sInt) * 100000000 == mathint(m)
